@@ -750,3 +750,9 @@ def replay(case, acc):
 
 def unit_test(case):
     return "# history (initial blocks, then operations) over the universe of mc/checks/c08.py:\n# " + repr(case["history"]) + "\n# failing op: " + repr(case.get("op")) + "\n"
+
+
+def ENV_SHARDS(tier):
+    """The broad, cheap families: run again in a fresh interpreter per environment (engine.run_environments)."""
+    return [s for n, s in enumerate(shards('quick')) if s[0] in ("raising", "foreign") or (s[0] == "nodedup" and n % 8 == 0)]
+
